@@ -890,8 +890,25 @@ class Sim:
             if r2 is not None:
                 target, gargs = r2
                 res = {"fn": target, "kind": "item"}
+        # rust-call ABI: a closure body called through Fn/FnMut/FnOnce takes the argument tuple spread out
+        if res is not None and "{closure" in target.get("did", "") and (fnj.get("trait") or "").split("::")[-1] in ("Fn", "FnMut", "FnOnce") and len(args) == 2:
+            tup = self.expand(st, self.resolve(st, args[1]))
+            f0 = self.prog.fns.get(target["did"])
+            if isinstance(tup, Struct) and f0 is not None and "body" in f0 and f0["body"]["arg_count"] == 1 + len(tup.fields):
+                args = [args[0]] + list(tup.fields)
+                a0ty = f0["body"]["locals"][1]["ty"]
+                if a0ty.get("k") != "ref" and isinstance(self.resolve(st, args[0]), Ref):
+                    args[0] = self.read(st, self.resolve(st, args[0]).ptr)       # call_once through a by-value closure
         call = {"fn": target, "orig": fnj, "args": args, "gargs": gargs, "ret_ty": ret_ty, "span": span,
                 "frame": fr, "resolved": res is not None, "dest": dest, "ret_bb": ret_bb}
+        # 0. tuple-struct / tuple-variant constructor used as a function value
+        ct = target.get("ctor") or fnj.get("ctor")
+        if ct:
+            aty = ret_ty if (ret_ty is not None and ret_ty.get("k") == "adt" and ret_ty.get("did") == ct["adt"]) else \
+                {"k": "adt", "did": ct["adt"], "name": ct["adt_name"], "args": gargs}
+            r = Struct(aty, tuple(args)) if ct.get("is_struct") else self.mk_enum(aty, ct["variant"], list(args))
+            self.finish_call(st, fr, dest, r, ret_bb)
+            return
         # 1. local function with MIR
         if target.get("local") and res is not None:
             f = self.prog.fns.get(target["did"])
